@@ -139,6 +139,7 @@ type Obligation struct {
 }
 
 type FnVC struct {
+	slice *sliceIndex
 	stores map[string]storeInfo
 	nMapUpdates int
 	prog     *Prog
